@@ -4,6 +4,6 @@ tier=$1; shift
 cd "$(dirname "$0")/.."
 for seed in "$@"; do
   for i in $(seq -w 1 20); do
-    VERIF_SEED=$seed ./check C$i --tier $tier --no-evidence 2>&1 | grep -E "^(VIOLATION|INCONCLUSIVE|KNOWN|C[0-9]+ )" | cut -c1-330
+    VERIF_SEED=$seed ./check C$i --tier $tier --no-evidence 2>&1 | grep -E "^(VIOLATION|  detail|INCONCLUSIVE|KNOWN|C[0-9]+ )" | cut -c1-330
   done
 done
